@@ -59,7 +59,7 @@ func (e evRec) OnMesg(m proto.Message) {
 	if m.Header&proto.MesgCompressedHeaderMask != 0 && len(m.Fields) > 0 {
 		ts = fmt.Sprint(m.Fields[0].Value.Uint32())
 	}
-	fmt.Fprintf(e.sb, " R%d.%d.%s.%d", m.Header, m.Num, ts, len(m.Fields))
+	fmt.Fprintf(e.sb, " R%d.%d.%s.%d.%d", m.Header, m.Num, ts, len(m.Fields), len(m.DeveloperFields))
 }
 
 // decw chk=<0|1> <hex>: `for dec.Next() { dec.Decode() }` with component expansion off; events from the
